@@ -120,6 +120,7 @@ type gadgetReplay struct {
 	Out       []string   `json:"out"`
 	Overrides []override `json:"overrides"`
 	Expect    string     `json:"expect"` // "accepted": reproduced iff the real system is satisfied
+	PadN      int        `json:"pad,omitempty"` // commit configurations: number of padding checks
 }
 
 func bigs(ss []string) []*big.Int {
@@ -180,12 +181,18 @@ func runGadgetReplay(g *gadgetReplay) (bool, string) {
 	case "commit-r1cs":
 		os.Unsetenv("USE_BIT_DECOMPOSITION_RANGE_CHECK")
 		nb = r1cs.NewBuilder
-		pad = commitPad
+		if g.PadN == 0 {
+			g.PadN = commitPad
+		}
+		pad = g.PadN
 		g.In = append(append([]string{}, g.In...), "5")
 	case "commit-scs":
 		os.Unsetenv("USE_BIT_DECOMPOSITION_RANGE_CHECK")
 		nb = scs.NewBuilder
-		pad = commitPad
+		if g.PadN == 0 {
+			g.PadN = commitPad
+		}
+		pad = g.PadN
 		g.In = append(append([]string{}, g.In...), "5")
 	case "native-r1cs", "native-r1cs-env":
 		os.Unsetenv("USE_BIT_DECOMPOSITION_RANGE_CHECK")
